@@ -52,7 +52,7 @@ type Config struct {
 	Params      map[string]int // harness parameters read with verifParam
 	// Summaries replace calls of pure functions by a term; each summary must
 	// have been validated against the function's body (see checks.proveSummary).
-	Summaries map[string]func(args []Value) Value
+	Summaries map[string]func(in *Interp, st *State, args []Value) Value
 }
 
 type Model func(in *Interp, st *State, call *ssa.CallCommon, args []Value) []Alt
@@ -254,8 +254,8 @@ func (in *Interp) Explore(init *State) ([]*State, error) {
 						fmt.Fprintf(os.Stderr, "progress: %d paths done, %d queued, stats %+v\n", len(done), len(work), in.Stats)
 					}
 				}
-				if in.Cfg.MaxStates > 0 && len(done) > in.Cfg.MaxStates && firstEr == nil {
-					firstEr = fmt.Errorf("state limit %d exceeded", in.Cfg.MaxStates)
+				if in.Cfg.MaxStates > 0 && len(done)+len(work) > in.Cfg.MaxStates && firstEr == nil {
+					firstEr = fmt.Errorf("state limit %d exceeded (path explosion)", in.Cfg.MaxStates)
 				}
 				mu.Unlock()
 				cond.Broadcast()
